@@ -492,6 +492,9 @@ class Body:
         if kw == "for":
             while j < n and not is_tok(el[j], 'in'):
                 j += 1
+        if kw in ("if", "while") and j < n and is_tok(el[j], 'let'):
+            while j < n and not is_tok(el[j], '='):
+                j += 1
         while j < n and not is_group(el[j], '{'):
             j += 1
         if j >= n:
@@ -501,6 +504,9 @@ class Body:
             while j < n and is_tok(el[j], 'else'):
                 if j + 1 < n and is_tok(el[j + 1], 'if'):
                     j += 2
+                    if j < n and is_tok(el[j], 'let'):
+                        while j < n and not is_tok(el[j], '='):
+                            j += 1
                     while j < n and not is_group(el[j], '{'):
                         j += 1
                     j += 1
@@ -552,6 +558,10 @@ class Body:
                     if e.text == "for":
                         # the pattern may contain braces; the block is the first brace group after `in`
                         while i + 1 < n and not is_tok(elems[i + 1], 'in'):
+                            i += 1
+                    if e.text in ("if", "while") and i + 1 < n and is_tok(elems[i + 1], 'let'):
+                        # `if let PAT = EXPR {`: the pattern may contain brace groups and `|`; the block is the first brace group after `=`
+                        while i + 1 < n and not is_tok(elems[i + 1], '='):
                             i += 1
                 elif e.kind == 'ident' and e.text in ("loop",):
                     expect = 'block'
